@@ -271,6 +271,23 @@ func ROptStack(c *core.Ctx) {
 						}
 					}
 				}
+				// a comment (?#…) is consumed together with its closing `)` by scanBlank: a path that saved
+				// the options before doing so leaves a word on the stack that no `)` arm will ever pop for it —
+				// the enclosing group's `)` then restores the options as they were at the comment
+				{
+					blank, pushed := false, false
+					for _, e := range sp.events {
+						switch {
+						case e.fn == push:
+							pushed = true
+						case e.fn != nil && e.fn == scanBlank:
+							blank = true
+						}
+					}
+					if blank && pushed && net != 0 {
+						bad = "a path saves the options and then consumes a (?#…) comment including its `)` (scanBlank): the saved word is never popped by that `)`, so a bare (?-n) / (?x) earlier in the enclosing group is undone at the wrong place in the pre-scan only"
+					}
+				}
 				if net == 0 {
 					// allowed only for an option-only group (push + popKeepOptions) or a comment (scanBlank, nothing pushed):
 					// a plain `(` that saves nothing makes the matching `)` pop the enclosing group's options
